@@ -10,6 +10,7 @@
    byte limits are not part of this property (C13/C14) and are left 0. *)
 From Coq Require Import String.
 From V Require Import Lib.Base Lib.Automata.
+(* end of imports *)
 Local Open Scope string_scope.
 Local Open Scope N_scope.
 
